@@ -1047,8 +1047,13 @@ pub fn run_c25(ctx: &Ctx, rep: &mut Report) {
     let n = ctx.cases(16_000, 160_000);
     let origins = [RName::simple("example.test."), RName::simple("sub.example.test."), RName::simple("inc.test."), RName::root()];
     let base = PathBuf::from(&ctx.workdir).join("c25");
+    let home = std::env::current_dir().ok();
     for case in ctx.case_range(n) {
         rep.current_case = case;
+        // (half of the cases change into the tree's directory to open the root file by a relative path)
+        if let Some(h) = &home {
+            let _ = std::env::set_current_dir(h);
+        }
         let mut rng = ctx.rng("c25", case);
         let dir = base.join(format!("case{}", case % 8));
         let _ = std::fs::remove_dir_all(&dir);
@@ -1213,7 +1218,28 @@ pub fn run_c25(ctx: &Ctx, rep: &mut Report) {
             rep.inconclusive("cannot write zone files into the work directory");
             return;
         }
-        let root_path = dir.join(&nodes[0].rel_path);
+        // the root file is opened by its absolute path, or (from inside the tree's directory) by a
+        // relative one: bare, with a leading "./", or through a "x/../" detour. Relative include
+        // paths with ".." must resolve against the including file's directory either way.
+        let mut root_path = dir.join(&nodes[0].rel_path);
+        if home.is_some() && rng.bool() {
+            // change into the root file's own directory (its includes then climb out of the
+            // working directory with "..") or into the top of the tree
+            let rel = std::path::Path::new(&nodes[0].rel_path);
+            let file = rel.file_name().map(|f| f.to_string_lossy().to_string()).unwrap_or_default();
+            let own_dir = dir.join(rel.parent().unwrap_or(std::path::Path::new("")));
+            if rng.chance(2, 3) {
+                if std::env::set_current_dir(&own_dir).is_ok() {
+                    root_path = PathBuf::from(if rng.bool() { file } else { format!("./{}", file) });
+                }
+            } else if std::env::set_current_dir(&dir).is_ok() {
+                root_path = PathBuf::from(match rng.below(3) {
+                    0 => format!("./{}", nodes[0].rel_path),
+                    1 => format!("other/../{}", nodes[0].rel_path),
+                    _ => nodes[0].rel_path.clone(),
+                });
+            }
+        }
         let result = panicmon::catch(|| {
             let mut out: Vec<Result<(PathBuf, usize, ZRec), String>> = Vec::new();
             match zone_file::fs::Parser::open(&root_path, max_depth) {
@@ -1303,6 +1329,9 @@ pub fn run_c25(ctx: &Ctx, rep: &mut Report) {
         if case % 200 == 0 {
             rep.sample(|| w());
         }
+    }
+    if let Some(h) = &home {
+        let _ = std::env::set_current_dir(h);
     }
     let _ = std::fs::remove_dir_all(&base);
 }
